@@ -84,13 +84,15 @@ def _ensure(cond, func):
 # ------------------------------------------------------------------------------------------
 # C01: every reported match is a genuine rigid-motion image (witness check)
 
-def c01_domain(structure, pattern, atol):
+def c01_domain(structure, pattern, atol, need_inside=True):
+    """need_inside=False: what C01 states about a reported match (elements, distinctness, lattice images, rigid image) does not
+    depend on whether the atoms are stored wrapped into the cell; completeness (C02, C03) is only judged for wrapped ones"""
     if structure.cell is None or len(structure) == 0 or len(pattern) == 0:
         return False
     cell = np.asarray(structure.cell, float)
     if cell.shape != (3, 3) or abs(np.linalg.det(cell)) < 1e-9:
         return False
-    if not G.inside_cell(cell, structure.positions, eps=1e-9):
+    if need_inside and not G.inside_cell(cell, structure.positions, eps=1e-9):
         return False
     return bool(np.all(G.perp_widths(cell) > G.diameter(pattern.positions) + 2 * atol))
 
@@ -151,10 +153,12 @@ def wrap_find(real_find):
     def c01_post(structure, pattern, atol, result):
         _ev("C01.find_post")
         try:
-            if not c01_domain(structure, pattern, atol):
+            if not c01_domain(structure, pattern, atol, need_inside=False):
                 _ev("C01.out_of_domain")
                 return True
             _ev("C01.in_domain")
+            if not G.inside_cell(np.asarray(structure.cell, float), structure.positions, eps=1e-9):
+                _ev("C01.in_domain_with_atoms_stored_outside_the_cell")
             _ev("C01.matches_checked", len(result[0]))
             for clause, msg, w in c01_clauses(structure, pattern, atol, result):
                 report("C01", clause, msg, witness=w)
